@@ -33,7 +33,8 @@ const VALUES: &[(Option<&str>, &str)] = &[
     (Some("\"a--b // c # d\""), "a--b // c # d"),
     (Some("x--y"), "x--y"),
 ];
-const SEPS: &[&str] = &[" ", "\t ", "\n"];
+// The last separator (CR LF) is only used by the long-list alphabet.
+const SEPS: &[&str] = &[" ", "\t ", "\n", "\r\n"];
 const EQS: &[&str] = &["=", " = ", "\n=\n"];
 const CLOSINGS: &[&str] = &[">", " >", "\n>"];
 const NOISE: &[&str] = &["", "text", "<b>", "a < b", "<blockquote>", "<!--", "it's \"", "<block", "</ block"];
@@ -50,7 +51,7 @@ fn attr_alphabet(reduced: bool) -> Vec<Attr> {
     let mut v = Vec::new();
     for name in 0..NAMES.len() as u8 {
         for value in 0..VALUES.len() as u8 {
-            for sep in 0..SEPS.len() as u8 {
+            for sep in 0..3u8 {
                 if reduced && sep != 0 {
                     continue;
                 }
@@ -398,11 +399,11 @@ pub fn run(cfg: &Cfg, sink: &Arc<Sink>) -> Report {
     // quoted with a space after a newline separator, unquoted non-ASCII with a spaced `=`, a
     // duplicate of the first name holding `>`, and a quoted end tag after a tab.
     let pick = |name: u8, value: u8, sep: u8, eq: u8| Attr { name, value, sep, eq };
-    let small = vec![pick(0, 0, 0, 0), pick(1, 5, 2, 0), pick(3, 2, 0, 1), pick(4, 6, 0, 0), pick(2, 11, 1, 0)];
+    let small = vec![pick(0, 0, 0, 0), pick(1, 5, 2, 0), pick(3, 2, 0, 1), pick(4, 6, 3, 0), pick(2, 11, 1, 0)];
     let long_len = cfg.tier.pick(5, 6);
     report.phase(engine::explore(
         "long attribute lists",
-        &format!("every list of 0..{long_len} attributes over 5 variants (bare; quoted value with a space, newline separator; unquoted non-ASCII value, spaced =; duplicate of the first name holding `>`; quoted `</block>` after a tab)"),
+        &format!("every list of 0..{long_len} attributes over 5 variants (bare; quoted value with a space, newline separator; unquoted non-ASCII value, spaced =; duplicate of the first name holding `>` after a CR LF; quoted `</block>` after a tab)"),
         AttrSpace { cfg: cfg.clone(), full: small.clone(), reduced: small, full_depth: long_len, max_len: long_len },
         sink,
         cfg.threads,
